@@ -643,7 +643,7 @@ def run(chk, replay=None):
     ncases = 28 if quick else 210
     nfoster = 18 if quick else 150
     nentry = 6 if quick else 40
-    budget = 150 if quick else 1000
+    budget = 150 if quick else 850
     t0 = time.time()
     if replay:
         import json
